@@ -18,8 +18,9 @@ class Undecided(Exception):
 # --------------------------------------------------------------------------- rules (reported)
 RULES = [
     "drop: doc comments (/// //! /** */), plain comments",
-    "reduce: #[derive(..)] to #[derive(Clone, Copy)] when it lists Copy, else drop; drop: attributes #[cfg_attr(..)], #[inline..], #[must_use..], #[allow(..)], #[doc..], #[default], #[non_exhaustive], #[repr(..)] on extracted items",
-    "drop: statements that are exactly a log::<level>!(...); macro call, and debug_assert*!(..) is rewritten to assert(..) obligations only where the unit says so",
+    "reduce: #[derive(..)] to its subset of {Clone+Copy, Debug}; drop: attributes #[cfg_attr(..)], #[inline..], #[must_use..], #[allow(..)], #[doc..], #[default], #[non_exhaustive], #[repr(..)] on extracted items",
+    "drop: statements that are exactly a log::<level>!(...); macro call",
+    "rewrite: assert!/debug_assert!(c, ..) -> Verus obligation assert(c); (debug_)assert_eq!/ne!(a, b) -> assert((a) ==/!= (b)): runtime assertions become proof obligations in every build profile",
     "rename: uN::from_be_bytes( -> uN_from_be_bytes(  (shim with assumed big-endian semantics)",
     "rename: <expr>.to_be_bytes() -> shim to_be_bytes_uN(<expr>) where the unit lists it",
     "rewrite: contracted method of `impl Trait for T` (non-operator, non-From) moved to inherent `impl T`",
@@ -181,8 +182,12 @@ def drop_attrs(text):
         out.append(text[i:m.start()])
         k = match_brace(text, text.index('[', m.start()), '[', ']')
         attr = text[m.start():k + 1]
-        if attr.startswith('#[derive') and re.search(r'\bCopy\b', attr):
-            out.append('#[derive(Clone, Copy)]')
+        if attr.startswith('#[derive'):
+            keepd = [d for d in ('Clone', 'Copy', 'Debug') if re.search(r'\b' + d + r'\b', attr)]
+            if 'Clone' in keepd and 'Copy' not in keepd:
+                keepd.remove('Clone')
+            if keepd:
+                out.append('#[derive(' + ', '.join(keepd) + ')]')
         i = k + 1
     return ''.join(out)
 
@@ -347,6 +352,51 @@ def drop_log_statements(body):
     return ''.join(out)
 
 
+ASSERT_MAC = re.compile(r'\b(debug_assert_eq|debug_assert_ne|debug_assert|assert_eq|assert_ne|assert)!\s*\(')
+
+
+def split_top_commas(t):
+    parts, depth, cur, i = [], 0, '', 0
+    while i < len(t):
+        c = t[i]
+        if c == '"':
+            j = _skip_string(t, i); cur += t[i:j]; i = j; continue
+        if c in '([{':
+            depth += 1
+        elif c in ')]}':
+            depth -= 1
+        if c == ',' and depth == 0:
+            parts.append(cur); cur = ''
+        else:
+            cur += c
+        i += 1
+    if cur.strip():
+        parts.append(cur)
+    return parts
+
+
+def rewrite_asserts(body):
+    """assert!/debug_assert!(cond, ..) -> proof obligation `assert(cond)`; *_eq!(a, b) -> assert((a) == (b)).
+    (debug assertions are checked irrespective of the build profile)"""
+    out, i = [], 0
+    while True:
+        m = ASSERT_MAC.search(body, i)
+        if not m:
+            out.append(body[i:]); break
+        k = match_brace(body, m.end() - 1, '(', ')')
+        args = split_top_commas(body[m.end():k])
+        kind = m.group(1)
+        if kind.endswith('_eq'):
+            rep = f"assert(({args[0].strip()}) == ({args[1].strip()}))"
+        elif kind.endswith('_ne'):
+            rep = f"assert(({args[0].strip()}) != ({args[1].strip()}))"
+        else:
+            rep = f"assert({args[0].strip()})"
+        out.append(body[i:m.start()] + rep)
+        i = k + 1
+    return ''.join(out)
+
+
 BUILTIN_RENAMES = [
     (re.compile(r'\b(u16|u32|u64|i64|i16|i32|u128|i128)::from_be_bytes\('), r'\1_from_be_bytes('),
 ]
@@ -393,6 +443,7 @@ def render_fn(sig, body, spec, renames, canary=False):
     body_renames=[(pat,rep)], attrs=[...])"""
     spec = spec or {}
     body = drop_log_statements(body)
+    body = rewrite_asserts(body)
     body = apply_renames(body, renames + spec.get('body_renames', []))
     sig = apply_renames(sig, renames + spec.get('sig_renames', []))
     # loops: splice from last to first so indices stay valid
